@@ -3,7 +3,9 @@ package main
 
 import (
 	"fmt"
+	"math/big"
 	"math/rand"
+	"os"
 	"runtime/debug"
 	"strings"
 
@@ -48,6 +50,42 @@ func verdict(n *sn.Node, x *pb.Transaction) (accepted bool, falseNil bool, desc 
 		return false, true, "(false, nil)"
 	}
 	return false, false, fmt.Sprint(err)
+}
+
+// blockVerdict: is a block carrying x accepted by the state machine of a twin of n? The block is
+// well formed (award, merkle root over the claimed ids, proposer signature), stored by the ledger
+// and then applied through Walk (the engine's sync path) or Play. withPool first admits the
+// honest original to the twin's pool, so that x arrives under the id of a transaction the node
+// already trusts.
+func blockVerdict(n *sn.Node, honest, x *pb.Transaction, withPool, viaWalk bool) (accepted bool, skipped bool, desc string) {
+	defer func() {
+		if p := recover(); p != nil {
+			accepted, skipped, desc = false, false, "PANIC: "+fmt.Sprint(p)+"\n"+string(debug.Stack())
+		}
+	}()
+	tw, err := n.Twin()
+	if err != nil {
+		return false, true, err.Error()
+	}
+	defer tw.Drop()
+	if withPool {
+		if err := tw.State.DoTx(sn.CloneTx(honest)); err != nil {
+			return false, true, "original not admitted: " + err.Error()
+		}
+	}
+	blk, err := tw.FormatBlock(tw.StateTip(), tw.LedgerHeight()+1, sn.K(0), 77777, []*pb.Transaction{x}, true)
+	if err != nil {
+		return false, true, err.Error()
+	}
+	if st := tw.Confirm(blk); !st.Succ {
+		return false, false, "ledger refused"
+	}
+	if viaWalk {
+		err = tw.Walk(blk.Blockid, false)
+	} else {
+		err = tw.State.Play(blk.Blockid)
+	}
+	return err == nil, false, fmt.Sprint(err)
 }
 
 // canon: the covered content of a transaction (what the signing digest must determine)
@@ -194,6 +232,50 @@ func main() {
 				}
 			}
 		}
+		// ---- block path: a sample of the covered-field mutants (id left alone: the id is then not
+		// the hash of the content) arrives inside a peer's block, under the id of the honest
+		// original, with and without the original in the node's own pool ----
+		{
+			per := r.N(10, 60)
+			var cand []mutate.Mutant
+			for _, m := range muts {
+				f := m.Field()
+				if strings.Contains(m.Path, "|") || uncovered(f, it.Tx.Version) || f == "Txid" || malleability(it, m) != "" {
+					continue
+				}
+				cand = append(cand, m)
+			}
+			stepM := len(cand)/per + 1
+			for ci := 0; ci < len(cand); ci += stepM {
+				m := cand[ci]
+				withPool, viaWalk := (ci/stepM)%2 == 0, (ci/stepM)%3 != 2
+				acc, skipped, desc := blockVerdict(n, it.Tx, m.Msg.(*pb.Transaction), withPool, viaWalk)
+				if skipped {
+					r.Count("blockpath.skipped", 1)
+					continue
+				}
+				r.Case(fmt.Sprintf("%s|block|%s|%s|pool=%v|walk=%v", it.Name, m.Path, m.Kind, withPool, viaWalk), true)
+				r.Count("blockpath.trials", 1)
+				if withPool {
+					r.Count("blockpath.trials.original-in-pool", 1)
+				}
+				if strings.HasPrefix(desc, "PANIC") {
+					r.Violation("verify|panic|block-path|"+m.Field(), fmt.Sprintf("applying a block with %s mutant %s/%s panics: %s", it.Name, m.Path, m.Kind, desc), wit(it, m, "block"))
+					continue
+				}
+				if acc {
+					r.Violation(fmt.Sprintf("mutant-accepted|block-path|%s|%s|original-in-pool=%v", m.Field(), kindClass(m.Kind), withPool),
+						fmt.Sprintf("a block carrying transaction %s with %s %s under the original id is applied (original in pool: %v, via walk: %v)", it.Name, m.Path, m.Kind, withPool, viaWalk), wit(it, m, "block"))
+				}
+			}
+			// the honest original itself inside a block must be accepted (the oracle can say yes)
+			if acc, skipped, desc := blockVerdict(n, it.Tx, it.Tx, ii%2 == 0, true); !skipped {
+				r.Count("blockpath.honest", 1)
+				if !acc {
+					r.Violation("corpus|honest-transaction-rejected-in-block|"+it.Name, "a block carrying the honest transaction is refused: "+desc, map[string]string{"item": it.Name})
+				}
+			}
+		}
 		// ---- signature attacks ----
 		attack := func(name string, y *pb.Transaction, mustReject bool) {
 			if y == nil {
@@ -332,6 +414,81 @@ func main() {
 			r.Sample(map[string]interface{}{"item": it.Name, "mutants": len(muts), "first_mutants": describe(muts, 8)})
 		}
 	}
+	// ---- outputs of account names WITHOUT a rule: nobody has authority over them ----
+	if w.RulelessFunding != nil {
+		n := corpusNode
+		for off, owner := range []string{corpus.RulelessAccount, corpus.ForeignAccount} {
+			out := w.RulelessFunding.TxOutputs[off]
+			in := &protos.TxInput{RefTxid: w.RulelessFunding.Txid, RefOffset: int32(off), FromAddr: []byte(owner), Amount: out.Amount}
+			thief := sn.K(5)
+			shapes := map[string]sn.TxSpec{
+				"account-named-as-initiator":           {Initiator: owner, Signers: []*sn.Key{thief}},
+				"account-named-as-initiator+authreq":   {Initiator: owner, Signers: []*sn.Key{thief}, AuthReq: []string{owner + "/" + thief.Address}},
+				"thief-initiator+account-in-authreq":   {Initiator: thief.Address, Signers: []*sn.Key{thief}, AuthReq: []string{owner + "/" + thief.Address}},
+				"thief-initiator-no-authreq":           {Initiator: thief.Address, Signers: []*sn.Key{thief}},
+				"thief-initiator+bare-account-authreq": {Initiator: thief.Address, Signers: []*sn.Key{thief}, AuthReq: []string{owner}},
+			}
+			for name, spec := range shapes {
+				spec.Inputs = []*protos.TxInput{in}
+				spec.Outputs = []sn.Out{{To: thief.Address, Amount: new(big.Int).SetBytes(out.Amount)}}
+				spec.Nonce = fmt.Sprintf("ruleless-%d-%s", off, name)
+				spec.Timestamp = 99
+				y, err := sn.BuildTx(spec)
+				if err != nil {
+					r.Count("attacks.not-buildable", 1)
+					continue
+				}
+				acc, fn, desc := verdict(n, y)
+				r.Case("ruleless|"+owner+"|"+name, true)
+				r.Count("attacks", 1)
+				r.Count("attacks.ruleless-owner", 1)
+				if fn {
+					r.Violation("verify|false-nil|attack", "VerifyTx answered (false, nil) for a spend of a rule-less account's output ("+name+")", map[string]string{"owner": owner, "attack": name})
+				}
+				if acc {
+					r.Violation("attack-accepted|output-of-account-without-rule-spent|"+name, fmt.Sprintf("an output owned by %s, an account name without any rule on this chain, is spent by an unrelated key (%s): %s", owner, name, desc),
+						map[string]string{"owner": owner, "attack": name})
+				}
+			}
+		}
+	}
+	// ---- block path: transfers that carry no signature at all but set one of the flags that
+	// select another verification route for block transactions ----
+	{
+		n := corpusNode
+		victim, thief := sn.K(0), sn.K(5)
+		if ins, _, tot, err := n.State.SelectUtxos(victim.Address, big.NewInt(50), false, false); err == nil && len(ins) > 0 {
+			for _, name := range []string{"autogen-flag", "autogen-flag+dummy-rwset", "coinbase-flag-with-inputs", "plain-unsigned"} {
+				y := &pb.Transaction{Version: 3, Nonce: "unsigned-" + name, Timestamp: 4242, TxInputs: ins,
+					TxOutputs: []*protos.TxOutput{{ToAddr: []byte(thief.Address), Amount: tot.Bytes()}}}
+				switch name {
+				case "autogen-flag":
+					y.Autogen = true
+				case "autogen-flag+dummy-rwset":
+					y.Autogen = true
+					y.TxInputsExt = []*protos.TxInputExt{{Bucket: "vb9", Key: []byte("nokey")}}
+				case "coinbase-flag-with-inputs":
+					y.Coinbase = true
+				}
+				y.Txid, _ = txhash.MakeTransactionID(y)
+				y, _ = sn.Wire(y)
+				acc, skipped, desc := blockVerdict(n, y, y, false, true)
+				if skipped {
+					continue
+				}
+				r.Case("block|unsigned|"+name, true)
+				r.Count("attacks", 1)
+				r.Count("attacks.unsigned-in-block", 1)
+				if os.Getenv("C07_DEBUG") != "" {
+					fmt.Fprintf(os.Stderr, "c07 debug: unsigned %s -> accepted=%v %s\n", name, acc, desc)
+				}
+				if acc {
+					r.Violation("attack-accepted|unsigned-transfer-in-block|"+name, fmt.Sprintf("a block carrying a transfer of %s's output to another address WITHOUT ANY SIGNATURE (%s) is applied by Walk: %s", victim.Address, name, desc),
+						map[string]string{"attack": name, "victim": victim.Address})
+				}
+			}
+		}
+	}
 	// ---- digest injectivity ----
 	for k, group := range byDigest {
 		r.Count("digest.groups", 1)
@@ -350,6 +507,9 @@ func main() {
 	r.Floor("corpus.items", 10)
 	r.Floor("mutants", 1500)
 	r.Floor("attacks", 60)
+	r.Floor("blockpath.trials", 200)
+	r.Floor("blockpath.trials.original-in-pool", 80)
+	r.Floor("blockpath.honest", 10)
 	r.Floor("digest.groups", 1200)
 	r.Assume("ECDSA P-256 and SHA-256 are trusted; Chain.SubmitTx adds only the duplicate-id cache and the no-input rule in front of State.VerifyTx + DoTx")
 	r.Finish()
